@@ -471,19 +471,46 @@ def filter_construction_sites(S, rep):
     rep.note("filter construction sites in the 3D simulator", found)
 
 
+def simulators_use_the_given_width(S, rep, tier):
+    """the damping rules above are per zone width; a simulator must build the damping kernel with the width it was configured
+    with (width 0 included: it is the documented way to switch the damping off), or cells outside the configured zone change"""
+    from ..values import simplify_scalar
+    from .simtools import build_sim
+    widths = (0, 1, 2) if tier == "quick" else (0, 1, 2, 3, 4, 5, 6)
+    for kind in ("2d", "3d"):
+        for w in widths:
+            cfg = dict(kind=kind, with_forcing=False, with_free_stream_flow=False, penalty_zone_width=w)
+            if kind == "3d":
+                cfg.update(filter=None, poisson_solver_type="greens_function_convolution")
+            run = build_sim(S, cfg)
+            inst = "%s simulator configured with penalty_zone_width=%d" % (kind.upper(), w)
+            if run.raised is not None or run.inst is None:
+                rep.ob("C19.f", inst, False, "constructor cannot be analysed: %s" % run.raised, key="C19.f|%s|%d|raises" % (kind, w))
+                continue
+            got = [simplify_scalar(op.args["width"]) for op in run.init_trace
+                   if op.kind == "CallBegin" and "penalise_field_boundary" in op.fn.qualname and "width" in op.args]
+            if not got:
+                raise Unsupported("anchor vanished: the %s simulator no longer builds gen_penalise_field_boundary_pyst_kernel_*" % kind)
+            rep.ob("C19.f", inst, all(g == w for g in got),
+                   "the damping kernel is built with width %s" % (got,), key="C19.f|%s|%d|%s" % (kind, w, got), nontrivial=False)
+
+
 def run(S, tier, rep):
     rep.rule_text = ("(a) extracted Brinkmann forms are convex combinations by sign analysis; (b) the extracted Heaviside is cut into the "
                      "ordered regions of its level-set argument, with exact endpoint values, closed-form derivative and parity; (c) every zone "
                      "cell of the damping summary is the inner-edge value times a product of sin(pi r), 0 <= r < 1/2, outermost ring r = 0; "
                      "(d) the Fourier multiplier of the extracted filter composite (Chebyshev conversion) equals the documented polynomial in "
                      "s_a = (1-cos theta_a)/2 and the result does not depend on prior buffer contents; (e) every construction of the filter "
-                     "by the library hands it work arrays that do not share memory")
+                     "by the library hands it work arrays that do not share memory; (f) the simulators build the damping kernel with the "
+                     "zone width they were configured with")
     rep.explanation = "real-arithmetic facts decided from normal forms; rounding is outside (the property says 'up to rounding')"
     brinkmann(S, rep)
     heaviside(S, rep)
     zone_damping(S, rep, tier)
     filters(S, rep, tier)
     filter_construction_sites(S, rep)
+    simulators_use_the_given_width(S, rep, tier)
+    rep.require_min("C19.f", 6)
     rep.require_min("C19.e", 2)
     rep.require_min("C19.a", 30)
     rep.require_min("C19.b", 16)
